@@ -100,14 +100,29 @@ def rule_len_saturating(ctx, crate, rule="R-LEN-SATURATING"):
         ctx.check(bool(stores), rule, "%s:stores" % K.meth(fn), b.name, K.fn_loc(b), "the length is updated", "%s no longer updates the length" % K.meth(fn), cfg)
         for i, s in stores:
             sl = b.slice_rv(i, s)
-            arith = [c for c in sl.calls if c.matches(r"core::num::<impl u64>::\w+")]
-            ok = len(arith) == 1 and K.meth(arith[0].path) == want and not (sl.atoms & {("binop", x) for x in ("Add", "Sub", "AddWithOverflow", "SubWithOverflow", "Mul")})
+            arith = [(b, c) for c in sl.calls if c.matches(r"core::num::<impl u64>::\w+")]
+            plain = bool(sl.atoms & {("binop", x) for x in ("Add", "Sub", "AddWithOverflow", "SubWithOverflow", "Mul")})
+            # closures applied to the old length (`len.map(|l| l.saturating_add(delta))`)
+            via_closure = False
+            for a in sl.atoms:
+                if a[0] == "closure" and a[1] in crate.bodies:
+                    cb = crate.bodies[a[1]]
+                    arith += [(cb, c) for c in cb.calls(r"core::num::<impl u64>::\w+")]
+                    plain = plain or any(x["rv"]["k"] == "bin" and x["rv"]["op"] in ("Add", "Sub", "AddWithOverflow", "SubWithOverflow", "Mul") for _, _, x in cb.assigns())
+                    via_closure = True
+            ok = len(arith) == 1 and K.meth(arith[0][1].path) == want and not plain
             ctx.check(ok, rule, "%s:%s" % (K.meth(fn), want), b.name, "%s:%d" % (b.file, s.get("line", 0)),
-                      "new length = old.%s(delta)" % want, "length arithmetic is not a single %s (found %s)" % (want, [K.meth(c.path) for c in arith] or "plain operators"), cfg)
+                      "new length = old.%s(delta)" % want, "length arithmetic is not a single %s (found %s)" % (want, [K.meth(c.path) for _, c in arith] or "plain operators"), cfg)
             if arith:
-                a0 = b.slice_args(arith[0], [0])
-                a1 = b.slice_args(arith[0], [1])
-                ctx.check(a0.has_field("len", "state::ProgressState") and a1.params() == {3} and not a1.calls, rule, "%s:operands" % K.meth(fn), b.name, arith[0].loc(),
+                ab, ac = arith[0]
+                a0 = ab.slice_args(ac, [0])
+                a1 = ab.slice_args(ac, [1])
+                if ab is b:
+                    ok2 = a0.has_field("len", "state::ProgressState") and a1.params() == {3} and not a1.calls
+                else:
+                    # inside the closure: operands are the closure's argument (the old length) and the captured delta
+                    ok2 = a0.params() == {2} and any(x[0] == "upvar" for x in a1.atoms) and sl.has_field("len", "state::ProgressState") and 3 in sl.params()
+                ctx.check(ok2, rule, "%s:operands" % K.meth(fn), b.name, ac.loc(),
                           "operands are the old length and the delta parameter", "operands are not (old length, delta)", cfg)
     for fn, kind in (("state::BarState::set_length", "some-param"), ("state::BarState::unset_length", "none")):
         b = K.find_one(ctx, crate, rule, re.escape(fn))
